@@ -278,10 +278,20 @@ func (g *surfGen) form() string {
 			"(for [(def i 0) (< i 3) (def i (+ i 1))] (let [x 1] (cond (== i 1) (break) nil)) (trace i))",
 			"(for outer: [(def i 0) (< i 2) (def i (+ i 1))] (for [(def j 0) (< j 2) (def j (+ j 1))] (cond (== j 1) (continue outer:) nil) (trace j)))",
 			"(for [(def i 0) (< i 3) (def i (+ i 1))] (newScope (def z i) (cond (== z 0) (continue) nil) (trace z)))",
+			"(for [(def i 0) (< i 4) (def i (+ i 1))] (let [sq (* i i)] (and (> sq 3) (break))) (trace i))",
+			"(for [(def i 0) (< i 3) (def i (+ i 1))] (letseq [a i b a] (or (< b 1) (continue)) (trace b)))",
+			"(for lp: [(def i 0) (< i 3) (def i (+ i 1))] (newScope (let [q i] (and (== q 1) true (break lp:)))) (trace i))",
+			"(for [(def i 0) (< i 3) (def i (+ i 1))] (cond (let [q i] (and (== q 1) (continue))) 1 2) (trace i))",
 		}).Draw(g.t, "loop")
 	case 15:
 		g.labels["tail-call"] = true
 		n := g.name("tc")
+		switch rapid.IntRange(0, 3).Draw(g.t, "tcshape") {
+		case 0:
+			return fmt.Sprintf("(defn %s [n] (let [m (- n 1)] (or (< m 0) (%s m))))\n(trace (%s 4))", n, n, n)
+		case 1:
+			return fmt.Sprintf("(defn %s [n] (letseq [m n k m] (newScope (and (> k 0) (%s (- k 1))))))\n(trace (%s 4))", n, n, n)
+		}
 		return fmt.Sprintf("(defn %s [n] (let [m n] (newScope (cond (<= m 0) 0 (%s (- m 1))))))\n(trace (%s 5))", n, n, n)
 	case 16:
 		g.labels["closure"] = true
